@@ -5,6 +5,10 @@
 (*          placemarkers for empty arguments next to ##, __VA_ARGS__,        *)
 (*          argument pre-expansion, blue paint, rescanning with the rest of  *)
 (*          the source;                                                      *)
+(*   (lex)  translation phase 3 for pp-numbers: a maximal-munch lexer over  *)
+(*          characters (6.4.8: e E p P followed by a sign continue a        *)
+(*          pp-number in any radix), texts next to macro names and under    *)
+(*          # and ##;                                                       *)
 (*   (cond) the conditional-group stack of #if/#ifdef/#ifndef/#elif/#else/   *)
 (*          #endif with a marker token in every group;                       *)
 (*   (if)   #if expression evaluation in intmax_t/uintmax_t (6.10.1p4) on    *)
@@ -23,7 +27,7 @@
 (* the "invariant" EmitInv together with the expected result.                *)
 EXTENDS Integers, Sequences, FiniteSets, TLC, Json, Emit, IOUtils, W64cpp
 
-CONSTANTS Fam,        \* "mac" | "cond" | "if" | "w64"
+CONSTANTS Fam,        \* "mac" | "lex" | "cond" | "if" | "w64"   (lex reuses KindSet = contexts, InvAlpha = chunks, MaxInv)
           NM,         \* mac: number of macros (1..3)
           KindSet,    \* mac: subset of {"obj","f0","f1","f2","fv","f1v"}
           MaxBody,    \* mac: tokens per replacement list
@@ -61,18 +65,29 @@ JoinC(cs) == IF cs = <<>> THEN "" ELSE Head(cs) \o JoinC(Tail(cs))
 (* ======================================================================= *)
 Lower == {"a", "b", "c", "d", "e", "f", "g", "h", "i", "j", "k", "l", "m", "n", "o", "p", "q", "r",
           "s", "t", "u", "v", "w", "x", "y", "z"}
-Upper == {"A", "G", "R", "S", "V"}
+Upper == {"A", "C", "E", "G", "I", "P", "R", "S", "T", "V", "X"}
 Digits == {"0", "1", "2", "3", "4", "5", "6", "7", "8", "9"}
 IsLetter(c) == c \in Lower \cup Upper \cup {"_"}
 IsDigit(c) == c \in Digits
 AllAlnum(sp) == \A i \in 1..Len(sp) : IsLetter(sp[i]) \/ IsDigit(sp[i])
 
 (* What a spelling is when it is (re)lexed as ONE preprocessing token (6.4): used for ## results *)
+(* pp-number (6.4.8):  digit | . digit | pp-number (digit | identifier-nondigit | e sign | E sign | p sign |     *)
+(* P sign | .)  -- a sign continues the number after e E p P whatever the radix.  NumEnd(cs, j): first index   *)
+(* after the longest pp-number whose first character(s) end before j.                                          *)
+RECURSIVE NumEnd(_, _)
+NumEnd(cs, j) ==
+  IF j > Len(cs) THEN j
+  ELSE IF cs[j] \in {"+", "-"} /\ cs[j - 1] \in {"e", "E", "p", "P"} THEN NumEnd(cs, j + 1)
+  ELSE IF IsDigit(cs[j]) \/ IsLetter(cs[j]) \/ cs[j] = "." THEN NumEnd(cs, j + 1)
+  ELSE j
+NumStart(cs, i) == IsDigit(cs[i]) \/ (cs[i] = "." /\ i < Len(cs) /\ IsDigit(cs[i + 1]))
+Puncts == {<<"#">>, <<"#", "#">>, <<"(">>, <<")">>, <<",">>, <<"+">>, <<"-">>, <<"+", "+">>, <<"-", "-">>, <<".">>, <<".", ".", ".">>}
 LexKind(sp) ==
   IF sp = <<>> THEN "bad"
   ELSE IF IsLetter(sp[1]) /\ AllAlnum(sp) THEN "id"
-  ELSE IF IsDigit(sp[1]) /\ AllAlnum(sp) THEN "num"         \* pp-number (no . or exponent signs here)
-  ELSE IF sp \in {<<"#">>, <<"#", "#">>, <<"(">>, <<")">>, <<",">>} THEN "pu"
+  ELSE IF NumStart(sp, 1) /\ NumEnd(sp, 2) = Len(sp) + 1 THEN "num"
+  ELSE IF sp \in Puncts THEN "pu"
   ELSE "bad"
 
 VA == <<"_", "_", "V", "A", "_", "A", "R", "G", "S", "_", "_">>
@@ -92,6 +107,29 @@ ItemTok(it, ws) == Tok(ItemKind(it), ItemSp(it), ws)
 ItemToks(it, ws) ==               \* "#x" is the two tokens # x
   IF it \in {"#x", "#y", "#V"} THEN <<Tok("pu", <<"#">>, ws), ItemTok(IF it = "#x" THEN "x" ELSE IF it = "#y" THEN "y" ELSE "V", TRUE)>>
   ELSE <<ItemTok(it, ws)>>
+(* Translation phase 3 on one line of characters: maximal munch (6.4p4).  @ opens a string literal, ' a   *)
+(* character constant ($ escapes the next character); a character that starts no token gives kind "bad". *)
+RECURSIVE IdEnd(_, _), LitEnd(_, _, _), LexFrom(_, _, _)
+IdEnd(cs, j) == IF j <= Len(cs) /\ (IsLetter(cs[j]) \/ IsDigit(cs[j])) THEN IdEnd(cs, j + 1) ELSE j
+LitEnd(cs, j, q) == IF j > Len(cs) THEN 0                       \* unterminated
+                    ELSE IF cs[j] = "$" THEN LitEnd(cs, j + 2, q)
+                    ELSE IF cs[j] = q THEN j + 1 ELSE LitEnd(cs, j + 1, q)
+LexFrom(cs, i, ws) ==
+  IF i > Len(cs) THEN <<>>
+  ELSE LET c == cs[i]
+           n == IF i < Len(cs) THEN cs[i + 1] ELSE " "
+           Emit1(k, j) == <<Tok(k, SubSeq(cs, i, j - 1), ws)>> \o LexFrom(cs, j, FALSE)
+       IN IF c = " " THEN LexFrom(cs, i + 1, TRUE)
+          ELSE IF NumStart(cs, i) THEN Emit1("num", NumEnd(cs, i + 1))
+          ELSE IF IsLetter(c) THEN Emit1("id", IdEnd(cs, i + 1))
+          ELSE IF c \in {"@", "'"} THEN LET j == LitEnd(cs, i + 1, c) IN
+               IF j = 0 THEN <<Tok("bad", <<c>>, ws)>> ELSE Emit1(IF c = "@" THEN "str" ELSE "chr", j)
+          ELSE IF c = "." /\ i + 2 <= Len(cs) /\ n = "." /\ cs[i + 2] = "." THEN Emit1("pu", i + 3)
+          ELSE IF c \in {"#", "+", "-"} /\ n = c THEN Emit1("pu", i + 2)
+          ELSE IF <<c>> \in Puncts THEN Emit1("pu", i + 1)
+          ELSE <<Tok("bad", <<c>>, ws)>>
+LexLine(cs) == LexFrom(cs, 1, TRUE)
+TextOf(ts) == Flat([i \in 1..Len(ts) |-> (IF ts[i].ws THEN <<" ">> ELSE <<>>) \o ts[i].s])
 ErrTok(code) == [k |-> "err", s |-> <<code>>, hs |-> {}, ws |-> TRUE]
 Plm == [k |-> "plm", s |-> <<>>, hs |-> {}, ws |-> TRUE]      \* placemarker (6.10.3.3p2)
 IsPu(t, c) == t.k = "pu" /\ t.s = c
@@ -179,6 +217,7 @@ ArgsOk(M, args) ==                \* 6.10.3p4: argument count
   ELSE Len(args) = Len(M.params)
 
 Res(o, f) == [o |-> o, f |-> f]
+WsFirst(ts, ws) == IF ts = <<>> THEN ts ELSE <<[ts[1] EXCEPT !.ws = ws]>> \o Tail(ts)   \* the result stands where the name stood
 RECURSIVE Expand(_, _), Subst(_, _, _, _, _, _)
 
 (* ---- subst: the replacement list of M with actuals ap; returns the token list before hsadd,     *)
@@ -238,7 +277,7 @@ Expand(C, ts) ==
           THEN LET r == Expand(C, R) IN Res(<<T>> \o r.o, r.f \cup (IF d # 0 THEN {"paint"} ELSE {}))
           ELSE LET M == C.env[d] IN
             IF ~M.fl THEN LET rp == Replace(C, M, <<>>, T.hs \cup {T.s})
-                              r == Expand(C, rp.o \o R)
+                              r == Expand(C, WsFirst(rp.o, T.ws) \o R)
                           IN Res(r.o, r.f \cup rp.f \cup {"obj"} \cup (IF T.hs # {} THEN {"nested"} ELSE {}))
             ELSE IF R = <<>> \/ ~IsPu(Head(R), <<"(">>)                                      \* function-like name without (
             THEN LET r == Expand(C, R) IN Res(<<T>> \o r.o, r.f \cup {"fn_name_no_paren"})
@@ -252,7 +291,7 @@ Expand(C, ts) ==
                 ELSE LET hs == IF C.pol = "A" THEN (T.hs \cap A.rhs) \cup {T.s} ELSE T.hs \cup {T.s}
                          ap == IF Len(M.params) = 0 /\ ~M.va THEN <<>> ELSE A.args
                          rp == Replace(C, M, ap, hs)
-                         r == Expand(C, rp.o \o rest)
+                         r == Expand(C, WsFirst(rp.o, T.ws) \o rest)
                          sx == T.hs \ A.rhs # {}                                             \* the name comes out of a replacement list
                          fl == Flat(A.args)                                                  \* that ends before the closing parenthesis
                      IN Res(r.o, r.f \cup rp.f \cup {"fn"}
@@ -271,7 +310,7 @@ RunMac(env, inv) ==
   ELSE IF HasErr(a.o, "U") THEN [st |-> "U", out |-> <<>>, ft |-> {}]
   ELSE LET b == Expand([env |-> env, pol |-> "B"], inv) IN
        IF AnyErr(b.o) \/ Spell(b.o) # Spell(a.o) THEN [st |-> "U", out |-> <<>>, ft |-> {"unspec_6.10.3.4p4"}]
-       ELSE [st |-> "D", out |-> Spell(a.o), ft |-> a.f]
+       ELSE [st |-> "D", out |-> Spell(a.o), ft |-> a.f, toks |-> a.o]
 
 (* ---- source text of a case (the spec writes it, the harness only maps @ and $) *)
 RECURSIVE LineText(_)
@@ -658,6 +697,57 @@ CondNext ==
 CondRow == [fam |-> "cond", lines |-> g.lines, st |-> g.st, exp |-> g.out]
 
 (* ======================================================================= *)
+(*              LEXICAL FAMILY: pp-numbers next to macro names             *)
+(* ======================================================================= *)
+(* The case is a line of CHARACTERS built from the chunks in InvAlpha (at most MaxInv chunks), lexed by    *)
+(* LexLine and then macro-replaced in the fixed environment                                                *)
+(*   #define X 1   #define S(x) #x   #define T(x) S(x)   #define C(x,y) x ## y   #define I(x) x            *)
+(* in one of the contexts of KindSet: "plain" text, "arg" I( text ), "str" S( text ), "xstr" T( text ),    *)
+(* "catl" C( text , 1 ), "catr" C( 0x , text ), "cate" C( 1e , text ).  0xE+X is ONE pp-number, so its X   *)
+(* is not the macro X.  A case whose expected output, printed with its white space, does not lex back to   *)
+(* the same tokens is dropped ("G"): c2m -E prints tokens without inserting separators.                    *)
+Ch(str) == CASE str = "0x" -> <<"0", "x">> [] str = "1e" -> <<"1", "e">> [] OTHER -> <<str>>
+LexTok(str) == Head(LexLine(Ch(str)))
+LexEnv == <<[name |-> <<"X">>, fl |-> FALSE, params |-> <<>>, va |-> FALSE, body |-> <<Tok("num", <<"1">>, TRUE)>>],
+            [name |-> <<"S">>, fl |-> TRUE, params |-> <<<<"x">>>>, va |-> FALSE, body |-> <<Tok("pu", <<"#">>, TRUE), Tok("id", <<"x">>, TRUE)>>],
+            [name |-> <<"T">>, fl |-> TRUE, params |-> <<<<"x">>>>, va |-> FALSE,
+             body |-> <<Tok("id", <<"S">>, TRUE), Tok("pu", <<"(">>, TRUE), Tok("id", <<"x">>, TRUE), Tok("pu", <<")">>, TRUE)>>],
+            [name |-> <<"C">>, fl |-> TRUE, params |-> <<<<"x">>, <<"y">>>>, va |-> FALSE,
+             body |-> <<Tok("id", <<"x">>, TRUE), Tok("pu", <<"#", "#">>, TRUE), Tok("id", <<"y">>, TRUE)>>],
+            [name |-> <<"I">>, fl |-> TRUE, params |-> <<<<"x">>>>, va |-> FALSE, body |-> <<Tok("id", <<"x">>, TRUE)>>]>>
+LexCtxs == SelectSeq(<<"plain", "arg", "str", "xstr", "catl", "catr", "cate">>, LAMBDA k : k \in KindSet)
+LexChunks == SelectSeq(<<"0x", "0", "1", "5", ".", "e", "E", "p", "P", "x", "a", "+", "-", "X", " ">>, LAMBDA k : k \in InvAlpha)
+LexSrc(ctx, txt) ==
+  CASE ctx = "plain" -> txt
+    [] ctx = "arg" -> <<"I", "(", " ">> \o txt \o <<" ", ")">>
+    [] ctx = "str" -> <<"S", "(", " ">> \o txt \o <<" ", ")">>
+    [] ctx = "xstr" -> <<"T", "(", " ">> \o txt \o <<" ", ")">>
+    [] ctx = "catl" -> <<"C", "(", " ">> \o txt \o <<" ", ",", " ", "1", " ", ")">>
+    [] ctx = "catr" -> <<"C", "(", " ", "0", "x", " ", ",", " ">> \o txt \o <<" ", ")">>
+    [] ctx = "cate" -> <<"C", "(", " ", "1", "e", " ", ",", " ">> \o txt \o <<" ", ")">>
+LexInit == \E i \in 1..Len(LexCtxs), j \in 1..Len(LexChunks) :
+             /\ Mine(i * Len(LexChunks) + j) /\ LexChunks[j] # " "
+             /\ g = [ctx |-> LexCtxs[i], txt |-> Ch(LexChunks[j]), n |-> 1] /\ ph = "gen"
+LexNext ==
+  \/ /\ ph = "gen" /\ g.n < MaxInv
+     /\ \E j \in 1..Len(LexChunks) :
+          /\ LexChunks[j] = " " => Last(g.txt) # " "
+          /\ g' = [g EXCEPT !.txt = @ \o Ch(LexChunks[j]), !.n = @ + 1] /\ ph' = "gen"
+  \/ /\ ph = "gen" /\ Last(g.txt) # " " /\ g' = g /\ ph' = "done"
+LexRow ==
+  LET src == LexSrc(g.ctx, g.txt)
+      toks == LexLine(src)
+      r == RunMac(LexEnv, toks)
+      bad == \E i \in 1..Len(toks) : toks[i].k = "bad"
+  IN IF bad \/ r.st # "D" THEN [fam |-> "lex", src |-> JoinC(src), st |-> IF bad THEN "I" ELSE r.st]
+     ELSE IF Spell(LexLine(TextOf(r.toks))) # r.out THEN [fam |-> "lex", src |-> JoinC(src), st |-> "G"]
+     ELSE [fam |-> "lex", src |-> JoinC(src), st |-> "D", exp |-> r.out, ntok |-> Len(toks),
+           ft |-> r.ft \cup (IF \E i \in 1..(Len(toks) - 1) : IsPu(toks[i], <<".">>) /\ toks[i + 1].s[1] = "." /\ ~toks[i + 1].ws
+                             THEN {"lex_dot_dot"} ELSE {})             \* a . directly followed by . or a pp-number .d (not ...)
+                       \cup (IF \E i \in 1..Len(toks) : toks[i].k = "num" /\ \E j \in 2..Len(toks[i].s) : toks[i].s[j] \in {"+", "-"}
+                             THEN {"lex_num_with_sign"} ELSE {})]
+
+(* ======================================================================= *)
 (*                       W64cpp table (host cross-check)                   *)
 (* ======================================================================= *)
 Grid == <<Zero, One, Small(2), Small(3), Small(63), Small(64), Small(65535), <<0, 1, 0, 0>>, <<65535, 32767, 0, 0>>, W2p31, W2p32,
@@ -682,9 +772,9 @@ W64Init == \E i \in 1..Len(W64Ops), a \in 1..Len(Grid), b \in 1..Len(Grid) :
 W64Row == [fam |-> "w64", op |-> g.op, a |-> Hex(g.a), b |-> Hex(g.b), r |-> Hex(W64Res(g.op, g.a, g.b))]
 
 (* ======================================================================= *)
-Init == (Fam = "mac" /\ MacInit) \/ (Fam = "if" /\ IfInit) \/ (Fam = "cond" /\ CondInit) \/ (Fam = "w64" /\ W64Init)
-Next == (Fam = "mac" /\ MacNext) \/ (Fam = "if" /\ IfNext) \/ (Fam = "cond" /\ CondNext)
-Row == CASE Fam = "mac" -> MacRow [] Fam = "if" -> IfRow [] Fam = "cond" -> CondRow [] Fam = "w64" -> W64Row
+Init == (Fam = "lex" /\ LexInit) \/ (Fam = "mac" /\ MacInit) \/ (Fam = "if" /\ IfInit) \/ (Fam = "cond" /\ CondInit) \/ (Fam = "w64" /\ W64Init)
+Next == (Fam = "lex" /\ LexNext) \/ (Fam = "mac" /\ MacNext) \/ (Fam = "if" /\ IfNext) \/ (Fam = "cond" /\ CondNext)
+Row == CASE Fam = "lex" -> LexRow [] Fam = "mac" -> MacRow [] Fam = "if" -> IfRow [] Fam = "cond" -> CondRow [] Fam = "w64" -> W64Row
 EmitInv == ph = "done" => EmitJ(Row)
 Spec == Init /\ [][Next]_vars
 =============================================================================
